@@ -697,7 +697,7 @@ def desugar_comprehension(
     gens = []
     for g in generators:
         if g.is_async:
-            raise GuppyError(UnsupportedError(g, "Async generators"))
+            raise GuppyError(UnsupportedError(g.target, "Async generators"))
         g.iter = builder.visit(g.iter)
         it = make_var(next(tmp_vars), g.iter)
         desugared = DesugaredGenerator(
